@@ -238,8 +238,62 @@ def evaluate(c):
     return res
 
 
+SEQ_IDENT = {'mail': ['alice@example.org'], 'displayName': ['Alice'], 'eduPersonPrincipalName': ['alice@example.org'],
+             'eduPersonTargetedID': ['tid-1'], 'secret': ['S3CR3T-VALUE']}
+SEQ_REQ = {'big': ('mail', 'displayName', 'eduPersonPrincipalName'), 'small': ('mail',), 'none': ()}
+
+
+def seq_cells():
+    out = []
+    for cat in ('edugain', 'refeds', 'swamid'):
+        for first, second in itertools.permutations(SEQ_REQ, 2):
+            for restr in ('absent', 'names'):
+                out.append(dict(seq=True, cat=cat, first=first, second=second, restr=restr))
+    return out
+
+
+def evaluate_seq(c):
+    """One long-lived Server, two SPs of the same entity categories with different required lists, served in turn:
+    what the second one gets must not depend on what the first one required."""
+    from saml2_tophat import saml
+    env.Clock.set(env.BASE)
+    cats = {'edugain': COCO, 'refeds': RS, 'swamid': RS}[c['cat']]
+
+    def mdfor(eid, req):
+        extra = ('<md:Extensions><mdattr:EntityAttributes xmlns:mdattr="urn:oasis:names:tc:SAML:metadata:attribute">'
+                 '<saml:Attribute xmlns:saml="urn:oasis:names:tc:SAML:2.0:assertion" Name="http://macedir.org/entity-category" '
+                 'NameFormat="urn:oasis:names:tc:SAML:2.0:attrname-format:uri"><saml:AttributeValue>%s</saml:AttributeValue>'
+                 '</saml:Attribute></mdattr:EntityAttributes></md:Extensions>' % cats)
+        return world.sp_md(eid, keys=(('spX', 'signing'),), requested=tuple((OID[n], n, True, ()) for n in SEQ_REQ[req]), extra=extra,
+                           acs=((ACS_POST if eid == SP_X else 'https://spy.example/acs', world.BINDING_HTTP_POST, 0),))
+    pol = {'default': {'entity_categories': [c['cat']], 'fail_on_missing_requested': False}}
+    if c['restr'] == 'names':
+        pol['default']['attribute_restrictions'] = {'mail': None, 'displayName': None, 'eduPersonPrincipalName': None, 'eduPersonTargetedID': None}
+    srv = world.make_idp(TMP[0], [mdfor(SP_X, c['first']), mdfor(world.SP_Y, c['second'])], policy=pol)
+    res = []
+    for eid, req in ((SP_X, c['first']), (world.SP_Y, c['second'])):
+        r = srv.create_authn_response({k: list(v) for k, v in SEQ_IDENT.items()}, 'req1', ACS_POST if eid == SP_X else 'https://spy.example/acs', eid,
+                                      name_id=saml.NameID(text='s', format=saml.NAMEID_FORMAT_TRANSIENT), authn={'class_ref': forge.PASSWORD})
+        ok, rel = released(str(r))
+        table = CAT_TABLE[c['cat']]
+        ent = set(a.lower() for a in table[''])
+        al = [a.lower() for a in table[cats]]
+        if cats in ONLY_REQUIRED.get(c['cat'], ()):
+            al = [a for a in al if a in [n.lower() for n in SEQ_REQ[req]]]
+        ent.update(al)
+        bad = sorted(n for n in rel if n.lower() not in ent or n == 'secret')
+        res.append({'sp': eid, 'released': sorted(rel), 'bad': bad})
+    return res
+
+
 def run(ctx):
     TMP[0] = ctx.tmp
+    sq = seq_cells()
+    sres = ctx.pmap(evaluate_seq, sq, chunksize=2)
+    for c, outs in zip(sq, sres):
+        for o in outs:
+            for name in o['bad']:
+                ctx.violation(dict(c, kind='released-beyond-policy', attribute=name, sp=o['sp'], role='idp'), {'released': o['released']})
     cs = cells(ctx.thorough)
     res = ctx.pmap(evaluate, cs, chunksize=8)
     ctx.recheck(evaluate, cs, res, n=16)
@@ -263,8 +317,8 @@ def run(ctx):
     return {
         'level': 'exploration',
         'coverage': {
-            'evaluations': n, 'distinct_nontrivial': len(nontriv), 'exhaustive': True,
-            'rule': '%s over: identity (6, incl. case variants, multi-valued, non-ASCII, a "secret" attribute no policy names) x policy entry (default / per-SP / per-SP entry falling back to default) x attribute_restrictions (absent, None, names, regex, regex matching nothing) x entity_categories (absent, refeds, swamid, edugain) x fail_on_missing_requested (absent, True, False) x SP declaration (none, required subset, required missing, required+optional, value constraint met/unmet, optional only, optional absent) x SP entity categories (none, R&S, CoCo, half/full swamid tuple); each case through create_authn_response and create_attribute_response; non-trivial = the reference filter removes something' % ('complete product' if ctx.thorough else 'all pairs of dimensions from a base case + unsatisfiable requirements x every policy shape'),
+            'evaluations': n + 2 * len(sq), 'distinct_nontrivial': len(nontriv), 'exhaustive': True, 'two_sp_sequences': len(sq),
+            'rule': 'two SPs of the same entity category with different required lists served in turn by one Server (all ordered pairs x 3 category policies x 2 restriction settings); %s over: identity (6, incl. case variants, multi-valued, non-ASCII, a "secret" attribute no policy names) x policy entry (default / per-SP / per-SP entry falling back to default) x attribute_restrictions (absent, None, names, regex, regex matching nothing) x entity_categories (absent, refeds, swamid, edugain) x fail_on_missing_requested (absent, True, False) x SP declaration (none, required subset, required missing, required+optional, value constraint met/unmet, optional only, optional absent) x SP entity categories (none, R&S, CoCo, half/full swamid tuple); each case through create_authn_response and create_attribute_response; non-trivial = the reference filter removes something' % ('complete product' if ctx.thorough else 'all pairs of dimensions from a base case + unsatisfiable requirements x every policy shape'),
             'samples': [{'case': cs[i0], 'outcomes': res[i0]}], 'distinct_outcomes': len(hist), 'outcome_histogram': hist,
         },
         'assumptions': ['the entity-category tables are data: the oracle carries an independent copy',
@@ -274,6 +328,9 @@ def run(ctx):
 
 def replay(ctx, w):
     TMP[0] = ctx.tmp
+    if w.get('seq'):
+        outs = evaluate_seq({k: w[k] for k in ('seq', 'cat', 'first', 'second', 'restr')})
+        return {'violation': any(o['bad'] for o in outs), 'observed': outs}
     c = {k: w[k] for k in ('entry', 'restr', 'cat', 'fail', 'decl', 'cats', 'ident')}
     outs = evaluate(c)
     return {'violation': any(o['bad'] for o in outs if o['role'] == w['role']), 'observed': outs}
